@@ -5,12 +5,12 @@ package bubble
 
 import (
 	"context"
-	"os"
 	"encoding/binary"
 	"errors"
 	"fmt"
 	"io"
 	"net"
+	"os"
 	"sync"
 	"time"
 
@@ -73,10 +73,10 @@ type Net struct {
 	counts  map[int16]int
 	nconn   int
 	reqs    []*ReqInfo
-	keep    bool           // keep request frames
-	OnReq   func(*ReqInfo) // observer, called with mu NOT held
+	keep    bool                           // keep request frames
+	OnReq   func(*ReqInfo)                 // observer, called with mu NOT held
 	OnResp  func(ri *ReqInfo, body []byte) // observer of every response body (correlation id onwards)
-	blocked bool           // refuse all new dials (unreachable brokers)
+	blocked bool                           // refuse all new dials (unreachable brokers)
 	conns   map[*conn]struct{}
 	lastAt  time.Time
 	sameAt  int
@@ -375,6 +375,9 @@ func (c *conn) Read(p []byte) (int, error) {
 			c.Conn.Close()
 			c.rerr = io.ErrUnexpectedEOF
 		case RewriteResponse:
+			if rule.Delay > 0 {
+				time.Sleep(rule.Delay) // later responses of this connection queue up behind it
+			}
 			if rule.Rewrite != nil {
 				if nb := rule.Rewrite(ri, body); nb != nil {
 					body = nb
